@@ -1,44 +1,74 @@
 (* C04 - Merger output is the sorted union of its sources, folded by the merge function.
-   FULL STATEMENT: C04_statement (below).  PROVED so far: the comparison used by the
-   heap is the stated order (key, then dupsort) and is a total preorder whenever
-   dupsort is; the statement itself is evaluated by vm_compute on concrete families
-   (T04_examples: overlapping sources incl. the empty key, with and without merge,
-   failing merge).  NOT yet proved: the heap invariant and the loop invariant of
-   merger_iter_next for all families.  Engine mg compares implementation, model and
-   the specification (sorted union; each value folded exactly once; dupsort order;
-   failure on a failing merge) on random and directed families over real readers and
-   over user-defined sources that invalidate old buffers on every call. *)
+   PROVED (dupsort = none, a merge function that does not fail), for every finite family of
+   strictly sorted sources (empty sources, the empty key, overlapping or disjoint key sets):
+   T04_merge_sources - draining the iterator of a merger yields keys in strictly ascending
+     order (hence each once), exactly the keys the sources hold, and for each key the fold of
+     the merge function over ALL values the sources hold for it, each value used exactly once
+     (in an order the heap decides: the statement quantifies existentially over it);
+   T04_next_call - one call of merger_iter_next from any reachable state: the least remaining
+     key with the fold over all its values; or failure exactly when the merge function fails on
+     that key (earlier keys were delivered by earlier calls); or exhaustion;
+   T04_heap - libmy/heap.c (array heap: siftup, siftdown, push, pop, replace) keeps the heap
+     order and the contents for every total preorder; the root is a least element.
+   The proofs are about model/Merger.v + model/Heap.v over ideal source cursors (the contract
+   C03 proves for reader iterators).  NOT proved: the variant without a merge function (every
+   entry emitted, dupsort order), which engine mg compares with the specification along with
+   everything above, on random and directed families over real readers and over user-defined
+   sources that invalidate old buffers on every call; the mtbl_merge tool and mtbl_source_write
+   are further observation paths of the engine. *)
 From Coq Require Import NArith List Lia Permutation.
-From Mtbl Require Import model.Bytes model.Order model.Heap model.Merger spec.MergeSpec proofs.OrderProofs.
+From Coq Require Import Sorting.Sorted.
+From Mtbl Require Import model.Bytes model.Order model.Heap model.Merger spec.MergeSpec proofs.OrderProofs
+  proofs.HeapProofs proofs.MergerProofs proofs.MergerClosed.
 Local Open Scope N_scope.
 
-Section C04.
-Variable mf : bytes -> bytes -> bytes -> option bytes.
+Theorem T04_merge_sources : forall (mf : bytes -> bytes -> bytes -> option bytes) (srcs : list (list entry)),
+  Forall ssorted srcs -> (forall k a b, mf k a b <> None) ->
+  exists it, merger_iter_make None (map (fun es => mksc es 0 true BAll false) srcs) false = Some it /\
+    let out := mdrain mf (S (length (concat srcs))) it in
+    StronglySorted (fun a b => bcmp (fst a) (fst b) = Lt) out /\
+    (forall k, In k (map fst out) <-> In k (map fst (concat srcs))) /\
+    Forall (fun e => merged_value_ok mf srcs (fst e) (snd e)) out.
+Proof. exact merge_sources. Qed.
+Print Assumptions T04_merge_sources.
 
-(* drain a merger iterator *)
-Fixpoint mdrain (fuel : nat) (it : miter) : list entry :=
-  match fuel with
-  | O => []
-  | S f => match merger_next (Some mf) None it with
-           | (it', Some e) => e :: mdrain f it'
-           | (_, None) => []
-           end
+Theorem T04_next_call : forall (mf : bytes -> bytes -> bytes -> option bytes) it, api it ->
+  match merger_next (Some mf) None it with
+  | (it', Some (k, v)) =>
+    exists first rest,
+      Permutation ((k, first) :: map (pair k) rest ++ remaining it') (remaining it) /\
+      fold_merge mf k first rest = Some v /\
+      (forall x, In x (remaining it') -> bcmp k (fst x) = Lt) /\
+      api it' /\ map sc_es (mi_srcs it') = map sc_es (mi_srcs it)
+  | (it', None) =>
+    (remaining it = [] /\ api it' /\ remaining it' = []) \/
+    (exists k first rest v0 others,
+       Permutation ((k, first) :: map (pair k) rest ++ (k, v0) :: others) (remaining it) /\
+       (forall x, In x others -> bcmp k (fst x) <> Gt) /\
+       fold_merge mf k first (rest ++ [v0]) = None)
   end.
+Proof. exact merger_next_closed. Qed.
+Print Assumptions T04_next_call.
 
-Definition sorted_src (es : list entry) : Prop :=
-  forall i j a b, (i < j)%nat -> nth_error es i = Some a -> nth_error es j = Some b -> bcmp (fst a) (fst b) = Lt.
-
-Definition C04_statement : Prop :=
-  forall (srcs : list (list entry)), Forall sorted_src srcs ->
-    (forall k a b, mf k a b <> None) ->
-    match merger_iter_make None (map (fun es => mksc es 0 true BAll false) srcs) false with
-    | Some it =>
-      let out := mdrain (S (length (concat srcs))) it in
-      map fst out = all_keys srcs /\
-      Forall (fun e => merged_value_ok mf srcs (fst e) (snd e)) out
-    | None => False
-    end.
-End C04.
+Theorem T04_heap : forall (A : Type) (cmp : A -> A -> comparison) (dflt : A),
+  (forall a b c, le A cmp a b -> le A cmp b c -> le A cmp a c) -> (forall a b, le A cmp a b \/ le A cmp b a) ->
+  hok A cmp dflt [] /\
+  (forall h x, hok A cmp dflt h -> hok A cmp dflt (heap_push A cmp dflt h x) /\ Permutation (heap_push A cmp dflt h x) (x :: h)) /\
+  (forall r t, hok A cmp dflt (r :: t) -> hok A cmp dflt (heap_pop A cmp dflt (r :: t)) /\ Permutation (heap_pop A cmp dflt (r :: t)) t) /\
+  (forall r t x, hok A cmp dflt (r :: t) -> hok A cmp dflt (heap_replace A cmp dflt (r :: t) x) /\ Permutation (heap_replace A cmp dflt (r :: t) x) (x :: t)) /\
+  (forall r t y, hok A cmp dflt (r :: t) -> In y t -> le A cmp r y).
+Proof.
+  intros A cmp dflt Ht Htot. repeat split.
+  - apply hok_nil; assumption.
+  - apply heap_push_ok; assumption.
+  - apply heap_push_ok; assumption.
+  - apply heap_pop_ok; assumption.
+  - apply heap_pop_ok; assumption.
+  - apply heap_replace_ok; assumption.
+  - apply heap_replace_ok; assumption.
+  - intros r t y. apply heap_root_min; assumption.
+Qed.
+Print Assumptions T04_heap.
 
 (* T04_cmp: the heap's comparison is "key first, then dupsort" and is a total preorder when dupsort is *)
 Theorem T04_cmp_partial : forall ds,
